@@ -332,6 +332,24 @@ def rule_zero_below_sp(ctx):
     if b is None:
         return
     o = Origin(b)
+    # no success exit before the zeroing: whatever the relation between the copy's length and the stack pointer offset, the bytes
+    # below the stack pointer are cleared before the function reports success
+    zsites = set()
+    for h, body in b.loops().items():
+        for x in body:
+            t = b.term(x)
+            if t["k"] == "call" and CalleeView(t["callee"]).short == "std::iter::Iterator::next":
+                it = o.call_expr(x)
+                if any(s_[0] == "agg" and s_[1].endswith("ops::Range") for s_ in walk(it)) and any(s_ == ("param", 2) for s_ in walk(it)) and not any(s_[0] == "call" and s_[1].split("::")[-1] == "chunks_exact_mut" for s_ in walk(it)):
+                    zsites.add(h)
+    for bi, t in b.calls(lambda c: (c.short or "").split("::")[-1] == "fill"):
+        a = o.call_args(bi)
+        if len(a) == 2 and core(a[1]) == ("const", 0, "u8"):
+            zsites.add(bi)
+    ex = Exits(b)
+    early = [ob for ob in ex.ok_blocks() if not zsites or must_pass(b, 0, {ob}, zsites) is not None]
+    ctx.check(bool(zsites) and not early, R, "no-success-before-zeroing", b.where(early[0]) if early else b.where(0), "every success path clears the bytes below the stack pointer first",
+              "a success path returns without having cleared the bytes below the stack pointer (e.g. when the copy is shorter than the stack pointer offset)")
     ims = [(bi, o.call_args(bi)) for bi, t in b.calls(lambda c: (c.short or "").split("::")[-1] == "index_mut") if strip(o.call_args(bi)[0]) == ("param", 2)]
     rng = [(bi, strip(a[1])) for bi, a in ims]
     rr = [x for x in rng if x[1][0] == "agg" and x[1][1].endswith("ops::Range")]
@@ -415,3 +433,7 @@ def run(ctx):
     rule_cache(ctx)
     rule_bitmap(ctx)
     rule_zero_below_sp(ctx)
+    # sanitisation stays requested for every dump from this writer (same rule instance as C19/config-preserved)
+    from rules import c19 as _c19
+    _c19.rule_config_preserved(ctx, R="C12/options-kept", only=("sanitize_stack",))
+
